@@ -292,18 +292,27 @@ class WebSocket:
         #   If the app handles the ValueError and keeps using the connection,
         #   receiving must keep working; an unhandled error ends up closing
         #   the connection (and stopping the pump) via the error handlers.
+        if self._state == _WebSocketState.CLOSED:
+            await self._buffered_receiver.stop()
+            return
+
+        # NOTE: Consider the connection closed from here on, so that anything
+        #   another task attempts while the pump is being stopped and the
+        #   close event is being sent raises WebSocketDisconnected (instead of
+        #   tripping over the stopped pump).
+        previous_state = self._state
+        self._state = _WebSocketState.CLOSED
+        self._close_code = code
+
         await self._buffered_receiver.stop()
 
         # NOTE(kgriffs): Only do this after we validate the code, to avoid
         #   masking errors.
-        if self.closed:
-            if self._state != _WebSocketState.CLOSED:
-                # NOTE: The client has already disconnected (as observed by
-                #   the receive pump, which was stopped above). Record it, so
-                #   that subsequent operations raise WebSocketDisconnected.
-                self._state = _WebSocketState.CLOSED
-                self._close_code = self._buffered_receiver.client_disconnected_code
-
+        if self._buffered_receiver.client_disconnected:
+            # NOTE: The client has already disconnected (as observed by
+            #   the receive pump, which was stopped above). Record it, so
+            #   that subsequent operations raise WebSocketDisconnected.
+            self._close_code = self._buffered_receiver.client_disconnected_code
             return
 
         response = {'type': EventType.WS_CLOSE, 'code': code}
@@ -318,7 +327,16 @@ class WebSocket:
         # NOTE: Send via _send() so that a server error caused by a lost
         #   connection is translated, and the connection is marked as closed
         #   (otherwise the error handlers would try to close it once more).
-        await self._send(response)
+        try:
+            await self._send(response, closing=True)
+        except errors.WebSocketDisconnected:
+            raise
+        except Exception:
+            # NOTE: The close event was not delivered (e.g., the server has
+            #   refused the code): the connection is still what it was.
+            self._state = previous_state
+            self._close_code = None
+            raise
 
         self._state = _WebSocketState.CLOSED
         self._close_code = code
@@ -487,13 +505,14 @@ class WebSocket:
 
         return self._mh_bin_deserialize(data)
 
-    async def _send(self, msg: AsgiSendMsg) -> None:
-        if self._buffered_receiver.client_disconnected:
-            self._state = _WebSocketState.CLOSED
-            self._close_code = self._buffered_receiver.client_disconnected_code
+    async def _send(self, msg: AsgiSendMsg, closing: bool = False) -> None:
+        if not closing:
+            if self._buffered_receiver.client_disconnected:
+                self._state = _WebSocketState.CLOSED
+                self._close_code = self._buffered_receiver.client_disconnected_code
 
-        if self._state == _WebSocketState.CLOSED:
-            raise errors.WebSocketDisconnected(self._close_code)
+            if self._state == _WebSocketState.CLOSED:
+                raise errors.WebSocketDisconnected(self._close_code)
 
         try:
             await self._asgi_send(msg)
@@ -794,7 +813,10 @@ class _BufferedReceiver:
 
         # Notify _pump()
         if self._put_message_waiter is not None:
-            self._put_message_waiter.set_result(None)
+            # NOTE: The waiter is already done (cancelled) if the pump is
+            #   being stopped by close() running in another task.
+            if not self._put_message_waiter.done():
+                self._put_message_waiter.set_result(None)
             self._put_message_waiter = None
 
         return message
